@@ -528,6 +528,37 @@ fn pair_requests(a: &Rose, b: &Rose, rng: &mut Rng, q: &mut Q, rep: &mut Report,
                 }
             }
         }
+        // ---- GROWTH of objects that were already used for everything that leaves a trace (distance matrices fill per-node
+        // caches, comparisons fill the leaf index and the split maps): a new leaf is added below an internal node of each tree,
+        // the documented reset is called, and the comparison must be that of the trees as they are now ----
+        if rf_ab.starts_with("ok") {
+            let (mut ga, mut gb) = (fresh(a), fresh(b));
+            let _ = ga.distance_matrix();
+            let _ = gb.distance_matrix();
+            let _ = ga.distance_matrix_recursive();
+            let _ = ga.robinson_foulds(&gb);
+            let _ = gb.compare_topologies(&ga);
+            let grow = |t: &mut Tree, rng: &mut Rng| -> Option<usize> {
+                let sl = slots_of(t);
+                let inner: Vec<usize> = (0..sl.len()).filter(|&i| !sl[i].deleted && !sl[i].children.is_empty()).collect();
+                let p = *rng.pick(&inner);
+                t.add_child(phylotree::tree::Node::new_named("NEWLEAF"), p, Some(1.0)).ok().map(|_| p)
+            };
+            if let (Some(pa), Some(pb)) = (grow(&mut ga, rng), grow(&mut gb, rng)) {
+                ga.reset_bipartition_cache();
+                gb.reset_bipartition_cache();
+                let reused = real_rf(&ga, &gb);
+                let fa = ga.to_newick().ok().and_then(|x| Tree::from_newick(&x).ok());
+                let fb = gb.to_newick().ok().and_then(|x| Tree::from_newick(&x).ok());
+                if let (Some(fa), Some(fb)) = (fa, fb) {
+                    let fresh_rf = real_rf(&fa, &fb);
+                    rep.count("rf_after_growth_and_reset");
+                    if reused != fresh_rf {
+                        rep.oracle("rf-after-edit", "growth:differs-from-fresh-trees", &format!("{case}\n# distance_matrix + comparisons on both objects, add_child(NEWLEAF) below node {pa} of the first and node {pb} of the second, reset_bipartition_cache, robinson_foulds"), &format!("reused objects: {reused}; freshly parsed trees: {fresh_rf}"));
+                    }
+                }
+            }
+        }
     } else {
         // ---------------- C07 ----------------
         let w = real_wrf(&ta, &tb);
@@ -780,6 +811,22 @@ pub fn run_pairs(prop: &str, thorough: bool, seed: u64, driver: &str, rep: &mut 
                     }
                     if rose_leafset(&a) == rose_leafset(&b) {
                         same = true;
+                    }
+                }
+                // look-alike taxon labels: one leaf is renamed (consistently in both trees) to a spelling that differs from another
+                // leaf's label only by quoting, letter case or a suffix — distinct labels are distinct taxa, however similar
+                if i % 5 == 2 {
+                    let ls: Vec<String> = rose_leafset(&a).into_iter().collect();
+                    if ls.len() >= 3 {
+                        let n1 = rng.pick(&ls).clone();
+                        let n2 = ls.iter().find(|x| **x != n1).unwrap().clone();
+                        let variant = match rng.below(6) { 0 | 1 => format!("'{n1}'"), 2 => format!("\"{n1}\""), 3 => n1.to_lowercase(), 4 => format!("{n1}_"), _ => format!("{n1}.0") };
+                        if !ls.contains(&variant) && !rose_leafset(&b).contains(&variant) {
+                            let map = |x: &str| -> String { if x == n2 { variant.clone() } else { x.to_string() } };
+                            a = rename(&a, &map);
+                            b = rename(&b, &map);
+                            rep.count("look_alike_leaf_labels");
+                        }
                     }
                 }
                 // the generator's intent is re-checked on the trees themselves (regrafting can turn a named
